@@ -1,5 +1,6 @@
 """C06 — finite-difference rules are exact to their stated order and match Richardson."""
 import json
+import os
 import math
 from fractions import Fraction
 
@@ -215,7 +216,10 @@ def run(ctx):
             # the moment of power k is a residual of the graded system (entries rho^(-j k), j < L): numpy's SVD-based pinv leaves it at
             # eps times the dynamic range of that column, rho^(k (L-1)), long before the full condition number is reached (unchanged
             # tree, exhaustive tables: at most 17 in these units); a rule tabulated to 11 digits misses that by orders of magnitude
-            grade = min(float(cond) + 1, float(rho) ** (k * (len(w) - 1)) * len(w))
+            grade = min(float(cond) + 1, float(rho) ** (k * (len(w) - 1)) * len(w)) if rho >= 1.5 else float(cond) + 1
+            # (for ratios close to 1 the nodes rho^-j nearly coincide and the residuals are no longer governed by the grading of the
+            # columns: at rho = 1.1 a thorough-tier run met 630 in these units — a false alarm of this bound — so it is used for well
+            # separated nodes only, where 17 is the largest value seen in ~20 thorough runs)
             bound = C_ROUND * EPS * grade * max(mag, 1e-300)
             allowed_residual = k >= n + mo and (k - n - mo) % step == 0
             if k == n:
@@ -226,6 +230,8 @@ def run(ctx):
                 expect = 0.0
             d = abs(val - expect)
             worst = max(worst, d / bound) if bound > 0 else worst
+            if os.environ.get('C06_LOG') and mag > 0:
+                open(os.environ['C06_LOG'], 'a').write('%r %r %r %r %r\n' % (float(rho), float(cond), k, len(w), float(d / (EPS * mag))))
             if mag > 0:
                 row = k
                 grade = min(float(cond), float(rho) ** (k * (len(w) - 1)) * len(w))
